@@ -757,9 +757,28 @@ fn rand_mode_set(rng: &mut Rng) -> ModeSet {
         for _ in 0..rng.range(2, 3) {
             let v: Vec<u32> = (0..rng.range(1, 3)).map(|_| *rng.pick(&LETTERS)).collect();
             if toks.iter().any(|t| matches!(&t.re, Re::Lit(x) if *x == v)) { continue; }
+            // a PATTERN token that matches keyword-like strings and shares a string with the literal (`/i[a-d]/` next to
+            // "ib"): it is shadowed by the literal, so it must NOT become a keyword; defined before or after the literal,
+            // and valid in a mode where the literal is not
+            let partner = if v.len() >= 2 && rng.chance(1, 2) {
+                let last = *v.last().unwrap();
+                let mut re = Re::Cls(false, vec![(0x61, 0x64), (last, last)]);
+                for c in v[..v.len() - 1].iter().rev() { re = Re::Seq(Box::new(Re::Lit(vec![*c])), Box::new(re)); }
+                if toks.iter().any(|t| t.re.ser() == re.ser()) { None } else { Some(re) }
+            } else { None };
+            let lit_mask = if partner.is_some() { *rng.pick(&[1u8, 2]) } else { *rng.pick(&[1u8, 2, 3]) };
+            let before = rng.chance(1, 2);
+            if let (Some(re), true) = (&partner, before) {
+                toks.push(Tok { prec: 0, is_string: false, re: re.clone(), immediate: false, ci: false });
+                masks.push(if rng.chance(2, 3) { 3 - lit_mask } else { 3 });
+            }
             kw_idx.push(toks.len());
             toks.push(Tok { prec: 0, is_string: true, re: Re::Lit(v), immediate: false, ci: false });
-            masks.push(*rng.pick(&[1u8, 2, 3]));
+            masks.push(lit_mask);
+            if let (Some(re), false) = (&partner, before) {
+                toks.push(Tok { prec: 0, is_string: false, re: re.clone(), immediate: false, ci: false });
+                masks.push(if rng.chance(2, 3) { 3 - lit_mask } else { 3 });
+            }
         }
         word = Some(toks.len());
         toks.push(Tok { prec: 0, is_string: false, re: wre, immediate: false, ci: false });
